@@ -8,6 +8,11 @@ fn main() {
         std::process::exit(2);
     }
     let id = args[1].clone();
+    if id == "build-helper" {
+        // stands in for a user's build.rs: lelwel::build reads OUT_DIR
+        lelwel::build(&args[2]);
+        return;
+    }
     if id == "lab" {
         // debug: run the request of a lab replay file and print the raw reply
         let v: serde_json::Value = serde_json::from_str(&std::fs::read_to_string(&args[2]).unwrap()).unwrap();
